@@ -53,15 +53,34 @@ def cases(R):
 
 def run(R):
     R.rule = ('(Kripke structure, CTL state formula): every structure with <= 2 states over {p,q} x every formula of nesting depth 1, '
-              'a sample (all in thorough) of depth-2 formulas, sampled 3-state structures in thorough, random <= 6 states / depth <= 4; '
-              'non-trivial = the formula has a temporal operator and the answer is neither empty nor all states; distinct by (structure, formula)')
+              'a sample (all in thorough) of depth-2 formulas, sampled 3-state structures in thorough, random <= 6 states / depth <= 4 '
+              '(or/and nodes with 2-3 operands, 4-9 with small probability); '
+              'non-trivial = the formula has a temporal operator and the answer is neither empty nor all states; distinct by (structure, formula). '
+              'PRESENTATIONS: a sample of the cases is re-run with the states renamed (1-based / sparse / negative ints, strings, tuples with a None '
+              'field, mutually unorderable mixed types; the model stays on numbers) and with label containers that are not sets (frozenset, list, '
+              'tuple, installed through replace_labelling_function). TEXT: a sample is passed as hand-written concrete syntax with multi-character atom '
+              'names (digits, underscores, names beginning with an operator letter / reserved word). LIVE STRUCTURES (mccheck.run_live): sessions on ONE '
+              'Kripke object - queries interleaved with edits of its owner through the public API (labels(s) add/discard, replace_labelling_function '
+              'with set/frozenset/list/shared containers, add_edge between existing states, a new state with its edges and labels) - with a pool of '
+              'formula OBJECTS (composed from shared sub-objects) reused across the calls (now and then also passed to CTLS/LTL.modelcheck); every '
+              'answer must equal the proved model on the presentation read back at the time of the call, every formula object must keep its tree, '
+              'K must be left alone, and the returned sets are cleared / polluted by the caller after being recorded')
     known_finding_probe(R)
     run_print_stream(R, 'C01', 'CTL', 1500 if R.thorough else 150)
-    run_mc(R, 'CTL', cases(R))
+    cs = cases(R)
+    run_mc(R, 'CTL', cs)
     long_structures(R, 'C01', 'CTL')
     run_mc(R, 'CTL', long_prefix_cases(R.rng, 2000 if R.thorough else 200), label='_long_common_prefix', alias_every=0)
     # or/and nodes with 3-5 (or 1) operands, each a distinct quantified formula
-    run_mc(R, 'CTL', wide_cases(R.rng, 3000 if R.thorough else 300, 'CTL'), label='_wide_connectives')
+    wide = wide_cases(R.rng, 3000 if R.thorough else 300, 'CTL')
+    run_mc(R, 'CTL', wide, label='_wide_connectives')
+    rng = R.rng
+    # the same cases under other presentations of the structure (states that are not 0..n-1, label containers that are not sets)
+    run_mc(R, 'CTL', rng.sample(cs, 20000 if R.thorough else 2400) + wide[::3], label='_renamed_states', alias_every=0, varied=True)
+    # the text channel with multi-character atom names
+    run_text(R, 'CTL', [c for c in rng.sample(cs, 6000 if R.thorough else 700) + wide[::4] if all(len(g) > 2 or g[0] not in NARY for g in subformulas(c[1]))])
+    # one structure queried, edited by its owner and queried again; formula objects reused
+    run_live(R, 'CTL', 4000 if R.thorough else 300)
 
 
 def replay(R, data):
